@@ -113,15 +113,22 @@ func (p *Parser) parseNode(node, parent *yaml.Node, group *Group, offsetLine, of
 		if group == nil {
 			group = &Group{} // nolint: exhaustruct
 		}
+		var nested []Group
 		for _, n := range unpackNodes(node) {
 			if ret, isEmpty := parseRule(n, offsetLine, offsetColumn, contentLines); !isEmpty {
 				group.Rules = append(group.Rules, ret)
+			} else if n.Kind == yaml.MappingNode || n.Kind == yaml.SequenceNode {
+				// Not a rule, but there might be rules somewhere below this list item.
+				// Aliases are not followed, their anchors are visited where they are
+				// defined and an alias can point back at its own parent.
+				nested = append(nested, p.parseNode(n, node, nil, offsetLine, offsetColumn, contentLines)...)
 			}
 		}
 		// Handle empty rules within a group.
 		if len(group.Rules) > 0 || (parent != nil && nodeValue(parent) == "rules" && len(groups) == 0 && group != nil) {
 			groups = append(groups, *group)
 		}
+		groups = append(groups, nested...)
 		return groups
 	case yaml.MappingNode:
 		for _, field := range mappingNodes(node) {
